@@ -245,3 +245,15 @@ Theorem gen_spec_reading : forall clocks,
   Forall (fun c => 0 <= c) clocks ->
   Forall (fun id => 0 <= id_time_enc id - id_time_lib id < 770000000) (gen_run gen_init clocks).
 Proof. intros. apply gen_run_spec_reading; [unfold gen_init; apply Z.le_refl | assumption]. Qed.
+
+(* remark: the display decoding MessageID.Time() (int32 nanoseconds) is within -2.65 .. +1.65 s
+   of the specification's reading, for every id; for client ids (low word < 2^31) it is the
+   encoder's nanosecond reading exactly *)
+Lemma id_time_display_vs_spec id :
+  let d := id_time_display id * 4294967296 - id_time_spec_scaled id in
+  - 2650000000 * 4294967296 < d < 1650000000 * 4294967296.
+Proof.
+  cbv zeta. unfold id_time_display, msgid_time_sec_go, msgid_time_nsec_go, wrap_s32_MsgIdGen, id_time_spec_scaled.
+  rewrite Z.shiftr_div_pow2 by lia. change (2^32) with 4294967296.
+  Z.to_euclidean_division_equations. lia.
+Qed.
